@@ -1195,12 +1195,13 @@ def inverted_timers(il):
         t = l.split()
         if l.startswith("LOG TimerSet "):
             # LOG TimerSet <time> <id> <name> <node> <proc> <delay>
-            pend[t[3]] = (t[6], f(t[2]) + f(t[7]), len(order))
+            pend[t[3]] = (t[6], f(t[2]) + f(t[7]), len(order), t[5])
             order.append(t[3])
         elif l.startswith(("LOG TimerFired ", "LOG TimerCancelled ")):
             pend.pop(t[3], None)
         elif l.startswith("LOG NodeCrashed"):
-            pend = {}
+            # only the timers of the crashed node die (LOG NodeCrashed <time> <node>)
+            pend = {k: v for k, v in pend.items() if v[3] != t[3]}
     items = sorted(pend.values(), key=lambda x: x[2])
     for i in range(len(items)):
         for j in range(i + 1, len(items)):
